@@ -41,6 +41,8 @@ def sa_bases(S):
         ("outerjoin-owner", "orm", lambda: sa.select(I).outerjoin(I.owner), False),
         ("join-owner-explicit", "orm", lambda: sa.select(I).join(O, I.owner_id == O.id), False),
         ("join-home", "orm", lambda: sa.select(I).join(I.home), False),
+        ("outerjoin-co-owner", "orm", lambda: sa.select(I).outerjoin(I.co_owner), False),
+        ("legacy-outerjoin-co-owner", "legacy", lambda: S.session.query(I).outerjoin(I.co_owner), False),
         ("legacy-join-home", "legacy", lambda: S.session.query(I).join(I.home), False),
         ("join-owner-region", "orm", lambda: sa.select(I).join(I.owner).join(O.region), False),
         ("outerjoin-owner-region", "orm", lambda: sa.select(I).outerjoin(I.owner).outerjoin(O.region), False),
@@ -162,6 +164,9 @@ def check_case(case, fenced=True):
                     m == "Region" and p != ("home",) for p, m in rel.to_one_hops(t, "Item").items()):
                 stats["excluded_a8"] = stats.get("excluded_a8", 0) + 1
                 continue
+            if "co-owner" in name and "A8" in known_ids("C04") and any(m == "Country" for m in rel.to_one_hops(t, "Item").values()):
+                stats["excluded_a8"] = stats.get("excluded_a8", 0) + 1
+                continue   # the base joins Country through Item.co_owner, the filter through Region.country (A8)
             if "region" in name and "A8" in known_ids("C04") and any(
                     m == "Region" and p != ("owner", "region") for p, m in rel.to_one_hops(t, "Item").items()):
                 stats["excluded_a8"] = stats.get("excluded_a8", 0) + 1
